@@ -133,7 +133,7 @@ func checkOperationIdentity(c *Ctx, gen *packages.Package) {
 			for f, w := range want {
 				got := ""
 				if v := goan.Field(cl, f); v != nil {
-					got = goan.ExprString(v)
+					got = goan.ExprString(goan.ResolveLocal(info, fd.Body, v))
 				}
 				c.Check(got == w, rule, fmt.Sprintf("generator.%s › %s.%s = %s", fn, typ, f, w), c.posOf(gen, cl.Pos()), "copied unchanged",
 					fmt.Sprintf("%s.%s is %q instead of %s: the generated code routes, names or calls the operation by something else than the spec's own %s (distinct operations can be merged)", typ, f, got, w, strings.ToLower(f)))
